@@ -21,6 +21,9 @@ const (
 var (
 	AllowedAssets       = []string{"btc", "lbtc"}
 	ErrSwapDoesNotExist = errors.New("swap does not exist")
+	// ErrEmptyMessage is returned for a payload that decodes to no message at
+	// all (JSON null), which would otherwise be dereferenced as a nil pointer.
+	ErrEmptyMessage = errors.New("message payload is empty")
 )
 
 type ErrMinimumSwapSize uint64
@@ -201,6 +204,9 @@ func (s *SwapService) OnMessageReceived(peerId string, msgTypeString string, pay
 		if err != nil {
 			return err
 		}
+		if msg == nil {
+			return ErrEmptyMessage
+		}
 		s.logMsg(msg.SwapId.String(), peerId, msgTypeString, payload)
 		err = s.OnSwapOutRequestReceived(msg.SwapId, peerId, msg)
 		if err != nil {
@@ -211,6 +217,9 @@ func (s *SwapService) OnMessageReceived(peerId string, msgTypeString string, pay
 		err := json.Unmarshal(msgBytes, &msg)
 		if err != nil {
 			return err
+		}
+		if msg == nil {
+			return ErrEmptyMessage
 		}
 		s.logMsg(msg.SwapId.String(), peerId, msgTypeString, payload)
 		// Check if sender is expected swap partner peer.
@@ -232,6 +241,9 @@ func (s *SwapService) OnMessageReceived(peerId string, msgTypeString string, pay
 		if err != nil {
 			return err
 		}
+		if msg == nil {
+			return ErrEmptyMessage
+		}
 		s.logMsg(msg.SwapId.String(), peerId, msgTypeString, payload)
 		// Check if sender is expected swap partner peer.
 		ok, err := s.isMessageSenderExpectedPeer(peerId, msg.SwapId)
@@ -251,6 +263,9 @@ func (s *SwapService) OnMessageReceived(peerId string, msgTypeString string, pay
 		err := json.Unmarshal(msgBytes, &msg)
 		if err != nil {
 			return err
+		}
+		if msg == nil {
+			return ErrEmptyMessage
 		}
 		s.logMsg(msg.SwapId.String(), peerId, msgTypeString, payload)
 		// Check if sender is expected swap partner peer.
@@ -272,6 +287,9 @@ func (s *SwapService) OnMessageReceived(peerId string, msgTypeString string, pay
 		if err != nil {
 			return err
 		}
+		if msg == nil {
+			return ErrEmptyMessage
+		}
 		s.logMsg(msg.SwapId.String(), peerId, msgTypeString, payload)
 		err = s.OnSwapInRequestReceived(msg.SwapId, peerId, msg)
 		if err != nil {
@@ -282,6 +300,9 @@ func (s *SwapService) OnMessageReceived(peerId string, msgTypeString string, pay
 		err := json.Unmarshal(msgBytes, &msg)
 		if err != nil {
 			return err
+		}
+		if msg == nil {
+			return ErrEmptyMessage
 		}
 		s.logMsg(msg.SwapId.String(), peerId, msgTypeString, payload)
 		// Check if sender is expected swap partner peer.
@@ -302,6 +323,9 @@ func (s *SwapService) OnMessageReceived(peerId string, msgTypeString string, pay
 		err := json.Unmarshal(msgBytes, &msg)
 		if err != nil {
 			return err
+		}
+		if msg == nil {
+			return ErrEmptyMessage
 		}
 		s.logMsg(msg.SwapId.String(), peerId, msgTypeString, payload)
 		// Check if sender is expected swap partner peer.
